@@ -126,7 +126,7 @@ def run(ctx):
         else:
             ok = e[0] == "bin" and e[1] == "BitOr" and bool(Call("Label::is_empty", Path("param1.[]"))(e[3]) or Call("Label::is_empty", Path("param1.[]"))(e[2]))
             ctx.check(ok, "C16.3", "from_labels:blank-update", "blank_label |= label.is_empty()", "blank_label updated as %s" % A.show(e), fl.loc(d[0]))
-    empties = flc.edges_where(lambda fc: fc[0] == "call" and fc[1].endswith("Vec::<T, A>::is_empty") and fc[3] is True and A.peel(fc[2][0]) == ("param", 1))
+    empties = flc.edges_where(lambda fc: fc[0] == "call" and A.is_empty_name(fc[1]) and fc[3] is True and A.peel(fc[2][0]) == ("param", 1))
     ok = bool(empties) and all(not [b for b, e in A.return_exprs(fl, flr) if b in fl.reachable(s) and A.peel(e)[2] == "Some"] for a, s in empties)
     ctx.check(ok, "C16.3", "from_labels:empty-input", "no labels => None", "an empty label list yields a name", fl.loc())
 
